@@ -18,6 +18,7 @@ from biobalm.space_utils import is_subspace, intersect
 from biobalm.types import BooleanSpace
 import biodivine_aeon
 import copy
+import networkx as nx  # type: ignore
 
 
 def symbolic_attractor_fallback(
@@ -55,6 +56,13 @@ def symbolic_attractor_fallback(
         for n in sd.node_ids():
             n_data = sd.node_data(n)
             if is_subspace(node_space, n_data["space"]):
+                continue
+            if n_data["skipped"] or any(
+                (not sd.node_data(d)["expanded"]) or sd.node_data(d)["skipped"]
+                for d in cast(set[int], nx.descendants(sd.dag, n))  # type: ignore
+            ):
+                # See `compute_attractor_candidates`: the result for `n` can only be
+                # used if everything below `n` is an ordinary expanded node.
                 continue
             if n_data["attractor_candidates"] == [] or n_data["attractor_seeds"] == []:
                 # This will create a lot of duplicates, but it seems to be better than
